@@ -680,6 +680,16 @@ def run_seek(max_len):
                             continue
                         if got_i != msg[i:i + 1] or got_j != msg[j:]:
                             fail("Python front end | RangeDecoder.seek | decoding after seek does not resume at the recorded position", f"{pname}, message {msg}, snapshots {i} then {j}: {got_i} / {got_j}")
+                # a clone taken in the middle of the stream continues like the original
+                for i in range(L + 1):
+                    d1 = RDEC(words)
+                    for k in range(i):
+                        d1.decode(model_at(k))
+                    d2 = d1.clone()
+                    r1 = [int(d1.decode(model_at(k))) for k in range(i, L)]
+                    r2 = [int(d2.decode(model_at(k))) for k in range(i, L)]
+                    if r1 != msg[i:] or r2 != msg[i:] or d1.maybe_exhausted() != d2.maybe_exhausted():
+                        fail("Python front end | RangeDecoder.clone | the clone does not continue like the original", f"{pname}, message {msg}, cloned after {i} symbols: {r1} / {r2}")
                 # a position beyond the data is refused and leaves the decoder usable
                 try:
                     dec.seek(len(words) + 1, snaps[0][1])
@@ -748,9 +758,9 @@ def run_impossible(max_len):
               ("bernoulli", M.Bernoulli(0.3, perfect=False), [0, 1], [2, -1, 2**24, 2**24 + 1])]
     data = np.array([0x12345678, 0x9abcdef0, 0x0fedcba9, 0x13579bdf, 0x2468ace0, 0xdeadbeef], dtype=np.uint32)
     def coders():
-        yield "AnsCoder", lambda: ANS(), lambda c, s, m: c.encode_reverse(s, m), lambda c: [int(x) for x in c.get_compressed()], lambda c, m, k: [int(x) for x in c.decode(m, k)]
-        yield "RangeEncoder", lambda: RENC(), lambda c, s, m: c.encode(s, m), lambda c: ([int(x) for x in c.get_compressed()], c.pos()), lambda c, m, k: [int(x) for x in c.get_decoder().decode(m, k)]
-        yield "ChainCoder", lambda: CHAIN(data, True, False), lambda c, s, m: c.encode_reverse(s, m), lambda c: [[int(x) for x in a] for a in c.get_remainders()], None
+        yield "AnsCoder", lambda: ANS(), lambda c, s, m, *a: c.encode_reverse(s, m, *a), lambda c: [int(x) for x in c.get_compressed()], lambda c, m, k: [int(x) for x in c.decode(m, k)]
+        yield "RangeEncoder", lambda: RENC(), lambda c, s, m, *a: c.encode(s, m, *a), lambda c: ([int(x) for x in c.get_compressed()], c.pos()), lambda c, m, k: [int(x) for x in c.get_decoder().decode(m, k)]
+        yield "ChainCoder", lambda: CHAIN(data, True, False), lambda c, s, m, *a: c.encode_reverse(s, m, *a), lambda c: [[int(x) for x in a] for a in c.get_remainders()], None
     with Quiet():
         for mname, model, sup, imps in models:
             for cname, make, enc, state, dec in coders():
@@ -783,6 +793,53 @@ def run_impossible(max_len):
                                         fail(f"Python front end | {cname} | history with a refused symbol does not round-trip", f"{mname}: {msg} with {imp} refused at {pos}: {got}")
                             except BaseException as e:
                                 fail(f"Python front end | {cname} | history with a refused symbol raises", f"{mname}: {msg} with {imp} at {pos}: {type(e).__name__}: {str(e)[:100]}")
+                # batches with per-symbol parameters that contain an impossible symbol (Gaussian family): KeyError, and
+                # the coder holds exactly the symbols coded before the refusal
+                if mname == "gaussian":
+                    famg = M.QuantizedGaussian(-3, 3)
+                    mus, sds = np.array([0.4, -1.2, 2.0, 0.0]), np.array([1.3, 0.5, 3.0, 0.8])
+                    for msg in small_messages([-3, 0], min(max_len, 3)):
+                        for pos in range(len(msg) + 1):
+                            n += 1; counters["py_impossible_batches"] += 1
+                            batch = msg[:pos] + [imps[0]] + msg[pos:]
+                            kk = len(batch)
+                            c = make()
+                            try:
+                                try:
+                                    enc(c, np.array(batch, dtype=np.int32), famg, mus[:kk], sds[:kk])
+                                    fail(f"Python front end | {cname} | batch with per-symbol parameters and an impossible symbol is accepted", f"{batch}")
+                                    continue
+                                except KeyError:
+                                    pass
+                                ref = make()
+                                if cname == "RangeEncoder":
+                                    if pos: enc(ref, np.array(batch[:pos], dtype=np.int32), famg, mus[:pos], sds[:pos])
+                                else:
+                                    if kk - pos - 1: enc(ref, np.array(batch[pos + 1:], dtype=np.int32), famg, mus[pos + 1:kk], sds[pos + 1:kk])
+                                if state(c) != state(ref):
+                                    fail(f"Python front end | {cname} | a refused batch with per-symbol parameters leaves something other than the symbols coded before the refusal", f"{batch}")
+                            except BaseException as e:
+                                fail(f"Python front end | {cname} | batch with per-symbol parameters and an impossible symbol: undocumented failure", f"{batch}: {type(e).__name__}: {str(e)[:100]}")
+                for msg in small_messages(sup[:2], min(max_len, 3)):
+                    if cname != "ChainCoder":
+                        break
+                    for pos in range(len(msg) + 1):
+                        n += 1; counters["py_impossible_batches"] += 1
+                        batch = msg[:pos] + [imps[0]] + msg[pos:]
+                        c = make(); ref = make()
+                        try:
+                            try:
+                                enc(c, np.array(batch, dtype=np.int32), model)
+                                fail("Python front end | ChainCoder | batch with an impossible symbol is accepted", f"{mname}: {batch}")
+                                continue
+                            except KeyError:
+                                pass
+                            if len(msg[pos:]):
+                                enc(ref, np.array(msg[pos:], dtype=np.int32), model)
+                            if state(c) != state(ref):
+                                fail("Python front end | ChainCoder | a refused batch leaves something other than the symbols coded before the refusal", f"{mname}: batch {batch}")
+                        except BaseException as e:
+                            fail("Python front end | ChainCoder | batch with an impossible symbol: undocumented failure", f"{mname}: {batch}: {type(e).__name__}: {str(e)[:100]}")
                 # batches with an impossible symbol: KeyError, and what is on the coder afterwards are the symbols that
                 # precede the refused one in coding order
                 if cname == "ChainCoder":
@@ -985,6 +1042,43 @@ def run_symbol(max_len):
                         after = st.get_compressed_and_bitrate()
                         if before[1] != after[1] or not np.array_equal(before[0], after[0]):
                             fail("Python front end | StackCoder.encode_symbol | refused symbol changes the coder", f"{wts}: symbol {bad}")
+                        q = S.QueueEncoder(); q.encode_symbol(0, eb)
+                        before = q.get_compressed_and_bitrate()
+                        try:
+                            q.encode_symbol(bad, eb)
+                            fail("Python front end | QueueEncoder.encode_symbol | symbol outside the Huffman alphabet is accepted", f"{wts}: symbol {bad}")
+                        except Exception as e:
+                            if is_panic(e): fail("Python front end | QueueEncoder.encode_symbol | symbol outside the Huffman alphabet panics", f"{wts}: symbol {bad}: {str(e)[:100]}")
+                        except BaseException as e:
+                            fail("Python front end | QueueEncoder.encode_symbol | symbol outside the Huffman alphabet panics", f"{wts}: symbol {bad}: {str(e)[:100]}")
+                        after = q.get_compressed_and_bitrate()
+                        if before[1] != after[1] or not np.array_equal(before[0], after[0]):
+                            fail("Python front end | QueueEncoder.encode_symbol | refused symbol changes the coder", f"{wts}: symbol {bad}")
+                    if k >= 2:
+                        # reading beyond the data: the documented ValueError, again and again
+                        q = S.QueueEncoder(); q.encode_symbol(1, eb); qd = q.get_decoder(); st = S.StackCoder(); st.encode_symbol(1, eb)
+                        for nm, c in (("QueueDecoder", qd), ("StackCoder", st)):
+                            outs = []
+                            for _ in range(40):
+                                try:
+                                    outs.append(c.decode_symbol(db))
+                                except ValueError:
+                                    outs.append("end")
+                                except BaseException as e:
+                                    outs.append(type(e).__name__)
+                            if outs[0] != 1 or "end" not in outs or any(o != "end" for o in outs[outs.index("end"):]) or any(isinstance(o, str) and o != "end" for o in outs):
+                                fail(f"Python front end | symbol.{nm}.decode_symbol | reading beyond the data is not reported with the documented ValueError, persistently", f"{wts}: {outs[:12]}")
+        for w in word_strings(1, 2, [0, 1, 0x80000000, 0xffffffff]):
+            n += 1
+            try:
+                S.StackCoder(w)
+                if w[-1] == 0:
+                    fail("Python front end | symbol.StackCoder(words) | words ending in a zero word are accepted", f"{[hex(int(x)) for x in w]}")
+            except ValueError:
+                if w[-1] != 0:
+                    fail("Python front end | symbol.StackCoder(words) | valid words are refused", f"{[hex(int(x)) for x in w]}")
+            except BaseException as e:
+                fail("Python front end | symbol.StackCoder(words) | panics", f"{[hex(int(x)) for x in w]}: {e}")
     return n, failures, counters
 
 
@@ -1427,6 +1521,78 @@ def run_misuse(level):
                         fail(f"Python front end | {cname} | a call that cannot be honoured panics instead of raising", f"{what}: {str(e)[:100]}")
                     if state(c) != before:
                         fail(f"Python front end | {cname} | a refused call changes the coder", f"{what} (after {prefix})")
+        # decoding calls that cannot be honoured: raise, decoder unchanged
+        words = np.array([0x12345678, 0x9abcdef1, 0x0fedcba9, 0x13579bdf], dtype=np.uint32)
+        cfam = M.CustomModel(lambda x, a, b: 0.5, lambda xi, a, b: 0.0, -3, 3)
+        dcalls = [("a family without parameters", (famg,)), ("a Gaussian family with one of its two parameter arrays", (famg, means[:2])), ("parameter arrays of different lengths", (famg, means[:2], stds[:3])),
+                  ("a categorical family with a rank-1 array", (famc, np.array([0.5, 0.5]))), ("a concrete model with a parameter array", (cat, means[:2])), ("a negative amount", (cat, -1)),
+                  ("a concrete model with two extra arguments", (cat, 2, 3)), ("a callback family with parameter arrays of different lengths", (cfam, means[:2], stds[:3])),
+                  ("a callback family with an integer where an array is expected", (cfam, 3, 4))]
+        decs = [("AnsCoder.decode", lambda: ANS(words), lambda c: [int(x) for x in c.get_compressed()]),
+                ("RangeDecoder.decode", lambda: RDEC(words), lambda c: [int(x) for x in c.clone().decode(cat, 3)]),
+                ("ChainCoder.decode", lambda: CHAIN(np.concatenate([words, words]), False, True), lambda c: [[int(x) for x in t] for t in c.get_remainders()])]
+        for dname, make, state in decs:
+            for what, args in dcalls:
+                n += 1; counters["py_misuse_calls"] += 1
+                c = make(); before = state(c)
+                try:
+                    c.decode(*args)
+                    fail(f"Python front end | {dname} | a call that cannot be honoured is accepted", what)
+                    continue
+                except Exception as e:
+                    if is_panic(e):
+                        fail(f"Python front end | {dname} | a call that cannot be honoured panics instead of raising", f"{what}: {str(e)[:100]}")
+                    counters["py_misuse_refused"] += 1
+                except BaseException as e:
+                    fail(f"Python front end | {dname} | a call that cannot be honoured panics instead of raising", f"{what}: {str(e)[:100]}")
+                if state(c) != before:
+                    fail(f"Python front end | {dname} | a refused call changes the coder", what)
+        # constructors and exports that must refuse
+        S = constriction.symbol
+        ctor = [("AnsCoder(seal=True) without data", lambda: ANS(None, True)), ("AnsCoder(words ending in a zero word)", lambda: ANS(np.array([5, 0], dtype=np.uint32))),
+                ("ChainCoder(words, is_remainders=True, seal=True)", lambda: CHAIN(words, True, True)), ("ChainCoder(no words)", lambda: CHAIN(words[:0], False, False)),
+                ("ChainCoder(words ending in a zero word)", lambda: CHAIN(np.array([5, 6, 7, 0], dtype=np.uint32), False, False)),
+                ("ChainCoder(words ending in a zero word, is_remainders=True)", lambda: CHAIN(np.array([5, 6, 7, 0], dtype=np.uint32), True, False)),
+                ("Categorical(lazy=True, perfect=True)", lambda: M.Categorical(np.array([0.5, 0.5]), lazy=True, perfect=True)),
+                ("symbol.StackCoder(words ending in a zero word)", lambda: S.StackCoder(np.array([5, 0], dtype=np.uint32))),
+                ("AnsCoder(float words)", lambda: ANS(np.array([1.0, 2.0]))), ("AnsCoder(int64 words)", lambda: ANS(np.array([1, 2], dtype=np.int64))),
+                ("AnsCoder(rank-2 words)", lambda: ANS(np.array([[1, 2], [3, 4]], dtype=np.uint32))), ("RangeDecoder(uint16 words)", lambda: RDEC(np.array([1, 2], dtype=np.uint16))),
+                ("Uniform(-1)", lambda: ANS().encode_reverse(0, M.Uniform(-1))), ("QuantizedGaussian(5, -5)", lambda: ANS().encode_reverse(0, M.QuantizedGaussian(5, -5, 0.0, 1.0)))]
+        for what, f in ctor:
+            n += 1; counters["py_misuse_calls"] += 1
+            try:
+                f()
+                fail("Python front end | constructors | an argument combination that cannot be honoured is accepted", what)
+            except BaseException:
+                counters["py_misuse_refused"] += 1     # (a panic is a clean refusal for a constructor, C19)
+        # unsealing a coder that is not in a sealed state: refused, coder unchanged
+        for init in ([], [0x12345678], [0x12345678, 0x9abcdef1], [2]):
+            n += 1; counters["py_misuse_calls"] += 1
+            c = ANS(np.array(init, dtype=np.uint32)) if init else ANS()
+            before = [int(x) for x in c.get_compressed()]
+            try:
+                out = c.get_compressed(unseal=True)
+                fail("Python front end | AnsCoder.get_compressed(unseal=True) | a coder that is not in a sealed state is unsealed", f"{[hex(x) for x in init]} -> {list(out)}")
+            except AssertionError:
+                counters["py_misuse_refused"] += 1
+            except BaseException as e:
+                fail("Python front end | AnsCoder.get_compressed(unseal=True) | undocumented failure on an unsealed coder", f"{[hex(x) for x in init]}: {type(e).__name__}")
+            if [int(x) for x in c.get_compressed()] != before:
+                fail("Python front end | AnsCoder.get_compressed(unseal=True) | a refused export changes the coder", f"{[hex(x) for x in init]}")
+        # a chain coder that holds a fractional number of words cannot be exported as data: refused, coder unchanged
+        c = CHAIN(np.concatenate([words, words]), False, True)
+        c.decode(cat)
+        before = [[int(x) for x in t] for t in c.get_remainders()]
+        n += 1; counters["py_misuse_calls"] += 1
+        try:
+            c.get_data()
+            c.get_data(unseal=True)
+        except AssertionError:
+            counters["py_misuse_refused"] += 1
+        except BaseException as e:
+            fail("Python front end | ChainCoder.get_data | undocumented failure", f"{type(e).__name__}: {str(e)[:100]}")
+        if [[int(x) for x in t] for t in c.get_remainders()] != before:
+            fail("Python front end | ChainCoder.get_data | changes the coder", "")
     return n, failures, counters
 
 
@@ -1465,6 +1631,11 @@ def run_representations(level):
     for pp in (0.3, 0.5, 1e-9, 0.999):
         groups.append((f"Bernoulli({pp})", [("in the constructor", M.Bernoulli(pp, perfect=False), None), ("per symbol", M.Bernoulli(perfect=False), lambda k, pp=pp: (col(pp, k),)),
                                           ("categorical table [1-p, p]", M.Categorical(np.array([1.0 - pp, pp]), perfect=False), None)], [0, 1]))
+    with contextlib.redirect_stdout(io.StringIO()):   # (the binding prints a deprecation warning when `perfect` is omitted)
+        for pp in (0.3, 0.5, 1e-9, 0.999, 1 / 3):
+            groups.append((f"Bernoulli({pp}, perfect=True)", [("in the constructor", M.Bernoulli(pp, perfect=True), None), ("per symbol", M.Bernoulli(perfect=True), lambda k, pp=pp: (col(pp, k),)),
+                                                            ("`perfect` left to its documented default (True)", M.Bernoulli(pp), None), ("family with `perfect` left to its default", M.Bernoulli(), lambda k, pp=pp: (col(pp, k),)),
+                                                            ("categorical table [1-p, p], perfect", M.Categorical(np.array([1.0 - pp, pp]), perfect=True), None)], [0, 1]))
     for size in (2, 3, 10, 1000):
         groups.append((f"Uniform({size})", [("in the constructor", M.Uniform(size), None), ("per symbol", M.Uniform(), lambda k, size=size: (col(size, k, np.int32),))], [0, size - 1, 1]))
     for t in ([0.2, 0.5, 0.3], [1 / 3, 1 / 3, 1 / 3], [0.1, 0.2, 0.7], [0.999, 0.0005, 0.0005]):
@@ -1481,7 +1652,7 @@ def run_representations(level):
                     arr = np.array(msg, dtype=np.int32)
                     want = None
                     for rname, model, par in reps:
-                        if par is None and rname != "all parameters in the constructor" and rname != "both in the constructor" and rname != "in the constructor" and not rname.startswith("categorical"):
+                        if par is None and rname.startswith("both per symbol as float32"):
                             continue
                         n += 1; counters["py_representation_comparisons"] += 1
                         try:
